@@ -32,7 +32,7 @@ def evalIn (v : Val) (vs : List Val) : Val :=
 
 def evalKeyConcat (r : Row) (cols : List String) : Val :=
   -- DuckDB CONCAT skips NULL arguments
-  .str (String.join ((cols.map fun c => (r.get c).toVarchar.getD "").intersperse "|"))
+  .str (Str.joinWith "|" (cols.map fun c => (r.get c).toVarchar.getD ""))
 
 def Expr.eval (r : Row) : Expr → Val
   | .col n => r.get n
